@@ -312,3 +312,77 @@ def optimize_case(d, at=0, max_passes=70):
 
 def obs_optimize(ctx, k, act, d, nv, problems):
     ctx["emit"].append(optimize_case(d, k))
+
+
+# ------------------------------------------------------------------ C14 (rechunk by specification)
+def obs_rechunk(ctx, k, act, d, nv, problems):
+    """For Rechunk / RechunkSpec actions: the advertised chunks vs the specification, then (like C03 / C02) the blocks
+    and the per-phase values of the rechunked collection and of whatever consumes it later."""
+    from dask_array._core_utils import normalize_chunks
+
+    from .replay import rechunk_spec
+
+    prog = ctx["prog"]
+    has_rechunk = any(a["a"] in ("Rechunk", "RechunkSpec") for a in prog[: k + 1])
+    if not has_rechunk:
+        return
+    if act["a"] in ("Rechunk", "RechunkSpec"):
+        x = ctx["da_env"][act["x"] - 1]
+        prev = [[_dim(c) for c in ax] for ax in x.chunks]
+        if act["a"] == "Rechunk":
+            spec = [{"k": "tuple"} for _ in act["chunks"]]
+            case = {"fn": "rechunk_spec", "at": k, "shape": [_dim(s) for s in x.shape], "prev": prev,
+                    "spec": [{"k": "keep"} for _ in act["chunks"]], "balance": 0,
+                    "out": [[_dim(c) for c in ax] for ax in d.chunks], "norm": [list(c) for c in act["chunks"]]}
+            # an explicit grid: the result must be exactly that grid ("keep" against prev := requested grid)
+            case["prev"] = [list(c) for c in act["chunks"]]
+        else:
+            sp = rechunk_spec(act)
+            full = sp
+            if isinstance(sp, dict):
+                full = tuple(sp.get(i) for i in range(x.ndim))
+            if isinstance(full, tuple):
+                full = tuple(c if c is not None else x.chunks[i] for i, c in enumerate(full))
+            try:
+                norm = normalize_chunks(full, x.shape, dtype=x.dtype, previous_chunks=x.chunks)
+            except Exception as ex:
+                ctx["emit"].append({"fn": "rechunk-raised", "at": k, "err": f"normalize_chunks: {type(ex).__name__}: {ex}"})
+                return
+            case = {"fn": "rechunk_spec", "at": k, "shape": [_dim(s) for s in x.shape], "prev": prev, "spec": act["spec"],
+                    "balance": int(bool(act["balance"])), "out": [[_dim(c) for c in ax] for ax in d.chunks],
+                    "norm": [[_dim(c) for c in ax] for ax in norm]}
+        ctx["emit"].append(case)
+    obs_blocks(ctx, k, act, d, nv, problems)
+    obs_phases(ctx, k, act, d, nv, problems)
+
+
+# ------------------------------------------------------------------ C20 (map_blocks block_info / block_id)
+def obs_block_info(ctx, k, act, d, nv, problems):
+    """Compute the current collection through the optimized graph and record every invocation of the block functions of
+    the MapBlocks actions below it."""
+    prog = ctx["prog"]
+    mbs = [(j, a) for j, a in enumerate(prog[: k + 1]) if a["a"] == "MapBlocks"]
+    if not mbs:
+        return
+    exp = ctx["env"][k]
+    if exp["kind"] == "err":
+        return
+    fns = []
+    for j, a in mbs:
+        coll = ctx["da_env"][a["out"] - 1]
+        fn = getattr(coll, "_verif_blockfn", None)
+        if fn is None:
+            return
+        fn.calls.clear()
+        fns.append((j, a, fn))
+    try:
+        with warnings.catch_warnings():
+            warnings.simplefilter("ignore")
+            got = spec_value(run_graph(fresh(d), True)[2])
+    except Exception as ex:
+        got = dict(RAISED, err=f"{type(ex).__name__}: {str(ex)[:160]}")
+    for j, a, fn in fns:
+        calls = [c for c in fn.calls if all(s > 0 for s in c["shape"]) or True]
+        ctx["emit"].append({"fn": "block_info", "at": k, "mb_at": j, "use": a["use"], "snap": [list(c) for c in fn.chunks_at_call],
+                            "calls": calls, "got": got, "expect": {"shape": exp["shape"], "kind": exp["kind"], "data": exp["data"]}})
+        fn.calls.clear()
